@@ -684,6 +684,30 @@ theorem defaults_documented :
 example : ((fromDict (realEnv fun _ => false) (.map [])).toOption.bind (·.get? "request_policy")).bind
     (toRequestPolicy KskmGen.algorithmDNSSEC) = some documentedRequestPolicy := by decide +kernel
 
+/-- the minimal configuration that omits `ksk_policy.ttl` while asking for it (`dns_ttl: 0`) -/
+def omittedKskTtl : CVal :=
+  .map [(.str "ksk_policy", .map []), (.str "request_policy", .map [(.str "dns_ttl", .int 0)])]
+
+/-- **omitted `ksk_policy.ttl` takes its default** — behaviour switch `KskmGen.dnsTtlFallback`
+    (finding F15), tabulated by execution.  Repaired: the configuration loads and `dns_ttl` is the
+    default TTL 172800.  Pinned: the full statement is FALSE — the loader ends in `KeyError`
+    (witness: `omittedKskTtl`; on the implementation: corr_C16 `delete:ksk_policy.ttl`). -/
+theorem omitted_ksk_ttl_default (fe : String → Bool) :
+    (KskmGen.dnsTtlFallback = some 172800 →
+      ((fromDict (realEnv fe) omittedKskTtl).toOption.bind fun l => intAt l "request_policy" "dns_ttl") = some 172800) ∧
+    (KskmGen.dnsTtlFallback = none → fromDict (realEnv fe) omittedKskTtl = err .key) := by
+  constructor
+  · intro h
+    have : realEnv fe = { tbl := KskmGen.configSchema, algNames := KskmGen.algorithmDNSSEC, fileExists := fe,
+        kskTtlFallback := some (.int 172800) } := by simp [realEnv, h]
+    rw [this]
+    decide +kernel
+  · intro h
+    have : realEnv fe = { tbl := KskmGen.configSchema, algNames := KskmGen.algorithmDNSSEC, fileExists := fe,
+        kskTtlFallback := none } := by simp [realEnv, h]
+    rw [this]
+    decide +kernel
+
 /-- the field validators the model has built in are the ones declared in the code now -/
 theorem before_validators_pinned :
     KskmGen.configBeforeValidators =
@@ -843,6 +867,14 @@ theorem config_error_status :
   constructor
   · intro h; rw [h]; exact config_error_status_fixed
   · intro h; rw [h]; exact config_error_status_pinned
+
+/-- The tree as it is now catches the schema-validation error (F3 repaired, /repo 0b69a0c): the full
+    property holds.  A regression flips the regenerated table and breaks this `decide`; the
+    correspondence run then exhibits the configuration and the status (stream `main`). -/
+theorem validation_error_is_caught_now : validationCaught = true := by decide
+
+theorem config_error_status_now : ConfigErrorStatus validationCaught :=
+  config_error_status.1 validation_error_is_caught_now
 
 /-- **nonzero_on_any_loader_failure.**  Whatever the loader reports other than a configuration
     (missing file, configuration error, validation error, any other exception, interrupt), and
